@@ -142,3 +142,22 @@ PROPS["C03"] = dict(
     rule="cases = (wavefunction kind, rank, pattern ordering, bra=ket or transition) tensors, numeric elements, "
          "Hamiltonian expectation values; every case compares a full tensor; distinct by (case index, pattern)",
 )
+
+PROPS["C06"] = dict(
+    level="proof",
+    technique="Lean 4 theorems (reverse_bubble_list's swap count is the fermionic sign for distinct modes in any context; "
+              "normal-ordering steps sound; interleaved<->block index bijection) + exact correspondence: the built "
+              "object's apply() vs the Spec action of the source expression, flags/e_0/iht truthfulness, both paths",
+    text="The sign bookkeeping both conversion routes rest on (bubble sort with swap counting) is modelled, compared with the "
+         "real reverse_bubble_list on random key lists, and proved to produce (-1)^swaps for any string with distinct "
+         "modes in any context; the reordering steps of normal ordering are proved sound. Whatever class build_hamiltonian "
+         "selects for random Hermitian polynomials with arbitrary factor order, duplicates and identity terms, the object is "
+         "applied to random wavefunctions and compared with the Spec action of the source expression; rank/dim/flags/e_0/iht "
+         "are checked against the expression.",
+    note="Lean kernel; OpenFermion's normal_ordered/is_hermitian are called, not verified; the class cascade itself is not a "
+         "Lean model: its outcome is judged by the action of the object it returns (norb<=3).",
+    design_ref="DESIGN.md §5 C06",
+    rule="cases = random operator expressions per family (diagonal, restricted, sso, gso, diagonal-Coulomb, mixed ranks, <=2 "
+         "terms) x 2 wavefunctions, bubble-sort key lists, tensor tuples; non-trivial = exact result has a negative/non-real "
+         "amplitude; distinct by (case, repetition)",
+)
